@@ -9,6 +9,7 @@ STD_CELLS = [
     ("default-G4u", "G4u", {"max_iteration": 900}),
     ("nonuniform-analytic", "G2n", {"analytic_priors": True}),
     ("nonuniform-rejection", "G2n", {}),
+    ("nonuniform-rejection-box-draws", "G2r", {}),
     ("ties-nlive50", "Tie2", {"nlive": 50, "stopping": 0.5}),
     ("ties-analytic", "Tie2", {"nlive": 100, "stopping": 0.5, "analytic_priors": True}),
     ("gw-proposal", "GW5", {"flow_proposal_class": "GWFlowProposal", "max_iteration": 500}),
@@ -49,7 +50,7 @@ STD_CELLS = [
     ("tolerance-loose", "G2u", {"stopping": 0.5}),
 ]
 
-QUICK_STD = ["default-G2u", "default-G4u", "nonuniform-analytic", "ties-nlive50", "ties-analytic", "gw-proposal", "clustering", "augmented-marginalised",
+QUICK_STD = ["default-G2u", "default-G4u", "nonuniform-analytic", "nonuniform-rejection-box-draws", "ties-nlive50", "ties-analytic", "gw-proposal", "clustering", "augmented-marginalised",
              "latent-nball", "latent-gaussian", "latent-flow", "radius-worst-point", "radius-min-max", "truncate-log-q", "accumulate-weights", "drawsize-small",
              "reparam-logit", "reparam-inversion-split", "reparam-inversion-duplicate", "reparam-angle", "flow-maf", "flow-nsf", "nlive-10", "nlive-300",
              "memory", "reset-weights", "uninformed-50", "shrinkage-t", "pool-2", "capped-300", "prior-sampling", "tolerance-loose"]
